@@ -339,6 +339,30 @@ impl PoolMap {
         conflicts
     }
 
+    /// Removes the entries, with their descendants, which spend or depend on an output of `tx`.
+    ///
+    /// It is for a transaction which a reorg has detached from the chain and which is not back
+    /// in the pool: its outputs exist neither on the chain nor in the pool any more.
+    pub(crate) fn resolve_missing_outputs(&mut self, tx: &TransactionView) -> Vec<ConflictEntry> {
+        let mut removed = Vec::new();
+
+        for o in tx.output_pts_iter() {
+            let mut ids: Vec<ProposalShortId> =
+                self.edges.get_input_ref(&o).cloned().into_iter().collect();
+            if let Some(deps) = self.edges.get_deps_ref(&o) {
+                ids.extend(deps.iter().cloned());
+            }
+            for id in ids {
+                let entries = self.remove_entry_and_descendants(&id);
+                let reject = Reject::Resolve(OutPointError::Unknown(o.clone()));
+                let rejects = std::iter::repeat_n(reject, entries.len());
+                removed.extend(entries.into_iter().zip(rejects));
+            }
+        }
+
+        removed
+    }
+
     pub(crate) fn estimate_fee_rate(
         &self,
         mut target_blocks: usize,
